@@ -177,7 +177,16 @@ func (g *G) msgParts(depth int, allowCall bool) []ref.Node {
 				out = append(out, &ref.Raw{Text: g.pick(msgTexts)})
 				continue
 			}
-			out = append(out, &ref.Print{E: g.chooseRef(refs)})
+			pr := &ref.Print{E: g.chooseRef(refs)}
+			switch g.R.Intn(14) {
+			case 0:
+				// literal braces right around a placeholder
+				out = append(out, &ref.Special{Name: "lb"}, pr, &ref.Special{Name: "rb"})
+			case 1:
+				out = append(out, &ref.Special{Name: "lb"}, &ref.Raw{Text: "ID_"}, pr, &ref.Special{Name: "rb"})
+			default:
+				out = append(out, pr)
+			}
 		case 5:
 			if allowCall {
 				if c := g.callOpt(depth, false); c != nil {
